@@ -298,18 +298,18 @@ def gen_auto(tier):
     t3s = [[STOP(1)], [STOP(2)], [SET], [], [SD], [STOP(2), SET], [SET, STOP(1)]]
     for init, t1, t2, t3 in itertools.product((0, 1), t1s, t2s, t3s):
         add(init, t1, t2, t3, sched=(1, 2, 1, 1))
-    return thin(out, 12, 14 if tier == "quick" else 100)
+    return thin(out, 12, 8 if tier == "quick" else 100)
 
 
 def part_auto(ctx):
     rep = ctx.rep
     scns = gen_auto(ctx.tier)
-    sp, bp, nb = tlc_behaviours(ctx, "auto", "AutoResetEvent", scns, "AutoMon", 1500 if ctx.quick else 6000)
+    sp, bp, nb = tlc_behaviours(ctx, "auto", "AutoResetEvent", scns, "AutoMon", 800 if ctx.quick else 6000)
     # ---- the seeded-bad design "event_.set() after the unlock" (Variant = "notify_outside"): TLC must refute it, and
     # its behaviours give schedules that sit in the window between a section's unlock and what follows it ("probe"
     # replays: on the real code they are ordinary executions, validated by the monitor; not counted as drift)
     multi = [s for s in scns if sum(1 for p in s["prog"] for o in p if o[0] in ("set", "setdone", "stop")) >= 2
-             and any(o[0] == "next" for p in s["prog"] for o in p)][:12 if ctx.quick else 40]
+             and any(o[0] == "next" for p in s["prog"] for o in p)][:10 if ctx.quick else 40]
     sp2 = os.path.join(ctx.work, "scn_auto_bad.json")
     json.dump(multi, open(sp2, "w"))
     for inv in ("InnerConsistentWhenFree", "DoneOnlyAfterDoneRequest"):
@@ -326,7 +326,7 @@ def part_auto(ctx):
         raise vlib.Broken("export of the bad variant's behaviours failed: " + rb["out"][-1500:])
     adj, inits, _ = vlib.read_edges(edges2)
     walks = vlib.edge_cover(adj, inits)
-    cap = 1500 if ctx.quick else 6000
+    cap = 800 if ctx.quick else 6000
     if len(walks) > cap:
         ctx.rng.shuffle(walks)
         walks = walks[:cap]
